@@ -35,8 +35,8 @@ def run(ck):
     for i in range(n):
         fitter = "single" if i % 3 else "multi"
         types = [PROFILES[i % 7]] if fitter == "single" else [rng.choice(PROFILES) for _ in range(rng.randint(1, 4))]
-        cases.append({"fitter": fitter, "types": types, "sky": ["none", "flat", "tilted-plane"][i % 3], "loss": losslib.LOSSES[i % 10],
-                      "renderer": rng.choice(["pixel", "fourier", "hybrid"]), "suffix": rng.choice(["", "_a", "_1", "_ps"]), "N": rng.choice([6, 8]),
+        cases.append({"fitter": fitter, "types": types, "sky": ["none", "flat", "tilted-plane"][(i + i // 3) % 3], "loss": losslib.LOSSES[i % 10],
+                      "renderer": rng.choice(["pixel", "fourier", "hybrid"]), "suffix": rng.choice(["", "_a", "_1", "_ps"]), "N": [6, 7, 8, 9][(i // 3) % 4],
                       "seed": rng.randint(0, 10**6), "mask": (rng.random() < 0.6) or ("sys" in losslib.LOSSES[i % 10])})
     ck.log("implementation: tracing %d real fitter models" % len(cases))
     import concurrent.futures as cf
@@ -86,7 +86,7 @@ def run(ck):
     for b in lik_bad:
         oracle_bad.append((b["case"], {"oracle": ["likelihood of the fitted model at an unmasked pixel differs from the documented %s formula with sigma = rms over good pixels: numpyro %.6g vs %.6g"
                                                    % (b["loss"], b["observed_log_prob"], b["documented_log_prob"])]}))
-    ck.rule = ("single/multi fitters x 7 profile types (mixed catalogues of 1-4 sources) x 3 sky types x 10 losses x 3 renderers x suffixes ('', _a, _1, _ps) x masks on 6x6/8x8 dyadic data, "
+    ck.rule = ("single/multi fitters x 7 profile types (mixed catalogues of 1-4 sources) x 3 sky types x 10 losses x 3 renderers x suffixes ('', _a, _1, _ps) x masks on 6x6..9x9 (even and odd) dyadic data, "
                "latent values drawn from the prior")
     ok, detail, failing = True, "", []
     if any(o["name"].startswith("translate:") and not o["ok"] for o in ck.obligations):
